@@ -130,6 +130,29 @@ func checkC05(r *core.Run) {
 		fn = next
 	}
 	rmReplyChecked(r, "C05.before")
+	// the table phase two looks its action up in is filled whatever the announcement to the coordinator answers:
+	// the proxy stays usable after a failed announcement (sync.Once makes the retry a no-op) and registers
+	// branches under that resource id, which phase two then must find
+	if reg := methodInfo(w, mgr, "RegisterResource"); r.Anchor("C05.unknown", reg, "TCC resource manager RegisterResource") != nil {
+		res := (&flow.Spec{W: w, Depth: 0, Classify: func(pkg *packages.Package, call *ast.CallExpr, callee *types.Func) []flow.Tag {
+			if callee != nil && callee.Pkg() != nil && callee.Pkg().Path() == "sync" && callee.Name() == "Store" {
+				return []flow.Tag{"cached"}
+			}
+			return nil
+		}, AssignTags: func(pkg *packages.Package, as *ast.AssignStmt) []flow.Tag {
+			for _, l := range as.Lhs {
+				if _, ok := ast.Unparen(l).(*ast.IndexExpr); ok {
+					return []flow.Tag{"cached"}
+				}
+			}
+			return nil
+		}}).Analyze(reg)
+		for _, ex := range res.Exits {
+			r.Sites++
+			r.Check(ex.St.Has("cached"), "C05.unknown", core.ShortKey(reg.Obj)+" "+exitRole(ex, nil)+" has stored the resource in the table phase two reads", w.Pos(ex.Pos), "stored on every path",
+				"the resource is not in the local table on this exit (e.g. when the announcement failed): branches registered through the still usable proxy cannot be committed or rolled back later — phase two answers 'resource is not exist' and never calls the user's method")
+		}
+	}
 	// ---------------- register step: parameters
 	if regFn == nil {
 		r.Anchor("C05.param", nil, "registration step of the TCC proxy")
